@@ -347,6 +347,13 @@ pub struct GenCfg {
     pub schedules: bool,
     /// name prefix so several signatures can coexist in one e-graph
     pub prefix: String,
+    /// top-level (subsume t) is preceded by an insertion of t (known finding F-C11-subsume-absent)
+    pub subsume_existing_only: bool,
+    /// (delete ..) only on function entries and relation rows, never on constructor terms
+    /// whose e-class id could be referenced elsewhere (known finding F-C11-delete-reinsert)
+    pub delete_nonminting_only: bool,
+    /// at most one container sort per kind (known finding F-C11-container-literal-inference)
+    pub one_container_per_kind: bool,
 }
 
 impl Default for GenCfg {
@@ -370,6 +377,9 @@ impl Default for GenCfg {
             term_building_rules: true,
             schedules: true,
             prefix: String::new(),
+            subsume_existing_only: false,
+            delete_nonminting_only: false,
+            one_container_per_kind: false,
         }
     }
 }
@@ -462,7 +472,12 @@ pub fn gen_sig(rng: &mut Rng, cfg: &GenCfg) -> Sig {
             };
             // Map keys that collide after unions are outside the claims: use i64 keys.
             let a = if kind == CKind::Map { Ty::I64 } else { a };
-            sig.conts.push(ContSort { name: format!("{p}K{i}"), kind, a, b });
+            if sig.conts.iter().any(|c| c.kind == kind && ((c.a == a && c.b == b) || cfg.one_container_per_kind)) {
+                // two sorts with one container definition are ambiguous for the encoder
+                // (known finding F-C11-duplicate-container-sort)
+                continue;
+            }
+            sig.conts.push(ContSort { name: format!("{p}K{}", sig.conts.len()), kind, a, b });
         }
     }
     // constructors: every sort gets >=2 nullary and 1-4 others
@@ -964,10 +979,30 @@ impl<'a> Gen<'a> {
                 let nonnull: Vec<&Ctor> = self.sig.ctors.iter().filter(|c| !c.args.is_empty()).collect();
                 let c = *rng.pick(&nonnull);
                 let args = c.args.iter().map(|a| self.gd(rng, a, 0, 2)).collect();
-                Cmd::Act(Act::Subsume(T::App(c.name.clone(), args)))
+                let t = T::App(c.name.clone(), args);
+                if self.cfg.subsume_existing_only {
+                    Cmd::Raw(format!("{t}\n(subsume {t})"))
+                } else {
+                    Cmd::Act(Act::Subsume(t))
+                }
             }
             9 => {
-                if rng.chance(1, 2) || self.sig.funcs.is_empty() {
+                if self.cfg.delete_nonminting_only && (rng.chance(1, 2) || self.sig.funcs.is_empty()) {
+                    let r = rng.pick(&self.sig.rels);
+                    let args = r.args.iter().map(|a| self.gd(rng, a, 0, 2)).collect();
+                    let t = T::App(r.name.clone(), args);
+                    // insert first: deleting an absent row is known finding F-C11-delete-absent
+                    Cmd::Raw(format!("{t}\n(delete {t})"))
+                } else if self.cfg.delete_nonminting_only {
+                    let fu = rng.pick(&self.sig.funcs);
+                    let args: Vec<T> = fu.args.iter().map(|a| self.gd(rng, a, 0, 2)).collect();
+                    let t = T::App(fu.name.clone(), args.clone());
+                    if fu.merge == Merge::NoMerge {
+                        Cmd::Act(Act::Expr(T::App(self.sig.rels[0].name.clone(), self.sig.rels[0].args.iter().map(|a| self.ground(rng, a, 0)).collect())))
+                    } else {
+                        Cmd::Raw(format!("{}\n(delete {t})", Act::Set(fu.name.clone(), args, T::Int(rng.range(0, 6)))))
+                    }
+                } else if !self.cfg.delete_nonminting_only && (rng.chance(1, 2) || self.sig.funcs.is_empty()) {
                     let c = rng.pick(&self.sig.ctors);
                     let args = c.args.iter().map(|a| self.gd(rng, a, 0, 2)).collect();
                     Cmd::Act(Act::Delete(T::App(c.name.clone(), args)))
